@@ -374,6 +374,17 @@ def g_conics(ctx, rng, i):
     except Exception as e:
         ctx.judge("from_crossratio", False, pts, what=f"raised {type(e).__name__}: {e}", op="from_crossratio")
     g.Conic.from_lines(g.Line(pts[0]), g.Line(pts[1]))
+    # still the conic through the five points after tangency / duality queries
+    try:
+        c.is_tangent(g.Line(gen.nonzero_vec(rng, 3, 5)))
+        if i % 2:
+            c.dual
+            c.is_tangent(g.Line(gen.nonzero_vec(rng, 3, 5)))
+    except Exception:
+        pass
+    arr = np.asarray(c.array, dtype=complex)
+    res = max(abs(np.asarray(p.array, dtype=complex) @ arr @ np.asarray(p.array, dtype=complex)) / (np.abs(arr).max() * max(1e-300, float(np.abs(p.array).max()) ** 2)) for p in P)
+    _rd(ctx, res <= 1e-8, pts, f"from_points: after is_tangent/dual queries a defining point is no longer on the conic (relative residual {res:.3g})")
     # tangent line not through the points
     for _ in range(20):
         t = gen.nonzero_vec(rng, 3, 5)
@@ -442,6 +453,23 @@ def g_round(ctx, rng, i):
     _rd(ctx, abs(s.radius - r) <= 1e-9 * max(1, r), [c3, r], f"Sphere.radius = {s.radius} vs {r}")
     _rd(ctx, abs(s.volume - 4 / 3 * math.pi * r ** 3) <= 1e-9 * max(1, r ** 3), [c3, r], f"Sphere.volume = {s.volume}, 4/3 pi r^3 = {4 / 3 * math.pi * r ** 3}")
     _rd(ctx, abs(s.area - 4 * math.pi * r ** 2) <= 1e-9 * max(1, r ** 2), [c3, r], f"Sphere.area = {s.area}, 4 pi r^2 = {4 * math.pi * r ** 2}")
+    # the constructed quadric stays the quadric of its data after it has been queried (tangency / duality / polarity queries)
+    for q_, cc, nm, stage in ((circ, c2, "Circle", 0), (s, c3, "Sphere", 0), (circ, c2, "Circle", 1), (s, c3, "Sphere", 1)):
+        try:
+            h = gen.nonzero_vec(rng, len(cc) + 1, 5)
+            if stage == 0:
+                q_.is_tangent((g.Line if len(cc) == 2 else g.Plane)(h))
+                q_.polar(g.Point(*(cc + 1.0)))
+                q_.is_degenerate
+            else:
+                q_.dual
+                q_.dual.dual
+        except Exception:
+            pass
+        _rd(ctx, np.allclose(_cart(q_.center), cc, atol=1e-6) and abs(q_.radius - r) <= 1e-9 * max(1, r), [cc, r],
+            f"{nm}: after is_tangent/dual/polar queries center, radius read back as {_cart(q_.center)}, {q_.radius}; constructed with {cc}, {r}")
+        on = g.Point(*(cc + r * np.eye(len(cc))[0]))
+        _rd(ctx, bool(q_.contains(on)), [cc, r], f"{nm}: after is_tangent/dual/polar queries the point centre + r e1 is no longer on it")
     s2 = g.Sphere(g.Point(*c2), r)  # the 1-sphere
     _rd(ctx, abs(s2.volume - math.pi * r ** 2) <= 1e-9 * max(1, r * r) and abs(s2.area - 2 * math.pi * r) <= 1e-9 * max(1, r), [c2, r], f"2D sphere volume/area = {s2.volume}/{s2.area}")
     # translation of quadrics by a point keeps them the locus of the moved centre
